@@ -15,6 +15,15 @@ def P(src, variant, name, args=None, tiers=('quick', 'thorough'), tier_args=None
 
 
 CHECKS = {
+    'C16': {
+        'engine': 'seqx',
+        'rule': 'allocation ledger over operation histories, input spaces and tag-cache lifetimes',
+        'parts': [
+            P('props/C16.cpp', 'asan+access', 'ledger-asan', tier_args={'quick': ['--depth', '3', '--jsonunits', '3', '--tokens', '2'], 'thorough': ['--depth', '4', '--jsonunits', '4', '--tokens', '2']}),
+            P('props/C16.cpp', 'fast+access', 'ledger-fast', tier_args={'quick': ['--depth', '4', '--jsonunits', '4', '--tokens', '2'], 'thorough': ['--depth', '5', '--jsonunits', '5', '--tokens', '3']}),
+        ],
+        'floor': {'quick': 1000, 'thorough': 1000},
+    },
     'C17': {
         'engine': 'sched',
         'rule': 'preemption-bounded schedule exploration with race monitor',
